@@ -39,12 +39,28 @@ class C12(Prop):
     thorough_runs = 80000
 
     def families(self, tier):
-        return [("session", 3), ("functions", 3), ("malformed", 3), ("two-engines", 1)]
+        return [("session", 3), ("functions", 3), ("malformed", 3), ("two-engines", 1), ("two-users", 1)]
 
     def expected_counters(self, tier):
         return ["probe.session-mac-verified", "probe.session-password", "probe.session-master", "probe.session-localized", "probe.fn-master-compared", "probe.fn-localized-compared", "probe.fn-over-1MiB", "probe.fn-engine-id-empty", "probe.malformed-refused", "probe.malformed-accepted", "probe.raw-socket-ctor", "probe.set-keys"]
 
     def gen(self, rng, family, tier):
+        if family == "two-users":
+            # two sessions of one process: the same password under different digests / ciphers
+            p = v3common.history_plan(rng, tier, ["md5-aes", "sha-des", "sha-aes", "md5-des", "md5", "sha"], nsess=2, identity_changes=False, ktypes=["password"], long_run=rng.randint(1, 2))
+            pw = rng.choice(gen.PASSWORDS).hex()
+            levels = rng.sample([("md5", 1, 2), ("sha", 2, 1), ("sha", 2, 2), ("md5", 1, 1), ("sha", 2, 0), ("md5", 1, 0)], 2)
+            users = []
+            for i, (_, aalg, palg) in enumerate(levels):
+                u = {"name": "w%d" % i, "auth": {"alg": aalg, "type": "password", "key": pw}}
+                if palg:
+                    u["priv"] = {"alg": palg, "type": "password", "key": pw}
+                users.append(u)
+                p["sessions"][i]["user"] = u
+            p["agent"]["users"] = users
+            p["scripts"] = {}
+            p["kind"] = "session"
+            return p
         if family == "two-engines":
             p = v3common.two_engine_plan(rng, tier, ["md5", "sha", "md5-des", "sha-aes", "md5-aes", "sha-des"])
             p["kind"] = "session"
